@@ -136,16 +136,75 @@ Definition typeRefs {T : Type} (isroot : T -> bool) (attrs : list (bytes * list 
 Definition typeRefs_exists {T : Type} (isroot matches : T -> bool) (attrs : list (bytes * list T)) : bool :=
   existsb matches (typeRefs isroot attrs).
 
+(** ** State.evalReferences #3 with its closure [visit] (schemahcl/context.go)
+    nodes : map[addr]*node, a node = (addr, edges(), value()).  Here: an address is a [nat]; the table
+    [nodes] gives for every node the addresses its expression refers to, in the order edges()
+    delivered them (for data/typed blocks that is bodyVars: itself a map order); ctx.Variables
+    restricted to node addresses is a key-sorted list [ectx]; n.value() is [valueOf n ctx].
+
+      visit = func(n) error {
+        if visited[n] { return nil }            // never true: visited is read but never written
+        if progress[n] { return "cyclic reference" }
+        progress[n] = true
+        for _, e := range n.edges() { if nodes[addr(e)] == nil { continue }; if err := visit(nodes[addr(e)]); err != nil { return err } }
+        delete(progress, n)
+        v, err := n.value(); if err != nil { return err }
+        ctx.Variables[...] = v; return nil }
+      for _, n := range nodes { if typeref says n is not referenced { continue }; if err := visit(n); err != nil { return err } } *)
+Section EvalRefs.
+  Variable Val : Type.
+  Definition ectx := list (nat * Val).
+  Fixpoint mget (k : nat) (c : ectx) : option Val :=
+    match c with
+    | [] => None
+    | (k', v) :: r => if k =? k' then Some v else mget k r
+    end.
+  Fixpoint mset (k : nat) (v : Val) (c : ectx) : ectx :=
+    match c with
+    | [] => [(k, v)]
+    | (k', v') :: r => if k =? k' then (k, v) :: r else if k <? k' then (k, v) :: c else (k', v') :: mset k v r
+    end.
+
+  Variable valueOf : nat -> ectx -> option Val.      (* None = evaluation error *)
+  Variable nodes : deps_t.
+  Definition is_node (a : nat) : bool := mem a (map fst nodes).
+  Definition edges_of (n : nat) : list nat := filter is_node (deps_get n nodes).
+
+  Inductive eres := EOut | EErr | EOk (c : ectx).     (* out of fuel | error | nil *)
+
+  Fixpoint evisit_edges (visit1 : nat -> ectx -> eres) (es : list nat) (c : ectx) : eres :=
+    match es with
+    | [] => EOk c
+    | e :: r => match visit1 e c with EOk c' => evisit_edges visit1 r c' | x => x end
+    end.
+
+  Fixpoint evisit (fuel n : nat) (progress : list nat) (c : ectx) : eres :=
+    match fuel with
+    | 0 => EOut
+    | S f =>
+        if mem n progress then EErr
+        else match evisit_edges (fun e c => evisit f e (n :: progress) c) (edges_of n) c with
+             | EOk c' => match valueOf n c' with None => EErr | Some v => EOk (mset n v c') end
+             | x => x
+             end
+    end.
+
+  Definition evisit_fuel : nat := S (length nodes).
+
+  Variable referenced : nat -> bool.
+  Fixpoint evalReferences_loop (l : list (nat * list nat)) (c : ectx) : eres :=
+    match l with
+    | [] => EOk c
+    | r :: l' =>
+        if referenced (fst r)
+        then match evisit evisit_fuel (fst r) [] c with EOk c' => evalReferences_loop l' c' | x => x end
+        else evalReferences_loop l' c
+    end.
+End EvalRefs.
+
 Section Eval.
   (* evaluation context, node / block / file payloads *)
   Variables (Ctx Node Val : Type).
-
-  (* State.evalReferences #3: for _, n := range nodes { if !referenced(n) { continue }; visit(n) }
-     visit is the memoising DFS closure; it is kept abstract here (see OrderIndep: partial). *)
-  Variable referenced : Node -> bool.
-  Variable visit : Ctx -> Node -> option Ctx.
-  Definition evalReferences_nodes (nodes : list (bytes * Node)) (c : Ctx) : option Ctx :=
-    foldM (fun c n => if referenced (snd n) then visit c (snd n) else Some c) nodes c.
 
   (* blockVars #1: for name, def := range defs.children { vars[name] = f(name, def) or return err }
      the result map is kept as a key-sorted list *)
